@@ -48,7 +48,10 @@ func driveRules(args []string) error {
 			editsSeen[e]++
 		}
 		for _, cont := range []bool{false, true} {
-			for _, strict := range []bool{true, false} {
+			for si, strict := range []bool{true, false, true} {
+				// the third run leaves the validator's options alone: documented defaults (strict path uniqueness on), the
+				// continue-on-errors mode coming from the package-level setter
+				viaDefaults := si == 2
 				outc, haserr, msgs := "returned", false, []string{}
 				st, pv := guarded(60*time.Second, func() {
 					ld, err := loads.Analyzed(json.RawMessage(text), "")
@@ -56,9 +59,16 @@ func driveRules(args []string) error {
 						outc = "loaderr"
 						return
 					}
-					sv := validate.NewSpecValidator(ld.Schema(), reg)
-					sv.SetContinueOnErrors(cont)
-					sv.Options.StrictPathParamUniqueness = strict
+					var sv *validate.SpecValidator
+					if viaDefaults {
+						validate.SetContinueOnErrors(cont)
+						sv = validate.NewSpecValidator(ld.Schema(), reg)
+						validate.SetContinueOnErrors(false)
+					} else {
+						sv = validate.NewSpecValidator(ld.Schema(), reg)
+						sv.SetContinueOnErrors(cont)
+						sv.Options.StrictPathParamUniqueness = strict
+					}
 					errs, _ := sv.Validate(ld)
 					haserr = errs.HasErrors()
 					msgs = messages(errs.Errors)
